@@ -5,17 +5,6 @@
 import SV.Generated.Facts
 namespace SV.Facts
 
-/-- every goleveldb write of package leveldb is issued with Sync: true (hypothesis of the C10 durability argument) -/
-theorem all_writes_sync : ∀ w ∈ leveldbWrites, w.2 = true := by decide
-/-- …and there is at least one write site per persister (the fact list is not vacuous) -/
-theorem write_sites_present : 2 ≤ leveldbWrites.length := by decide
-
-/-- the persister read paths read the pending batch in one critical section and the flush paths hold the batch mutex
-    until LevelDB has the batch: the block structure of SV.Conc.PersistConc is the structure of the code -/
-theorem persister_blocks :
-    (dbGetBatchReadsAtomic && dbHasBatchReadsAtomic && serialGetBatchReadsAtomic && serialHasBatchReadsAtomic &&
-     serialFlushHoldsLock && dbFlushHoldsLock) = true := by decide
-
 /-- the listed methods are single critical sections -/
 theorem single_sections : ∀ m ∈ singleCriticalSection, m.2 = true := by decide
 theorem single_sections_present : 20 ≤ singleCriticalSection.length := by decide
